@@ -36,7 +36,7 @@ _KERNEL_DEVIATIONS = {
 # Reduce* / ArgMax kernels of onnxruntime on a tensor without elements return the input unreduced for some axes / keepdims
 # combinations (and a following Squeeze then fails): the model (operator document) agrees with torch eager there
 for _n in ("all_dim", "any_dim", "all_dims", "any_dims", "all", "any", "prod", "prod_dim_int", "logsumexp", "argmax", "argmin",
-           "var_correction", "std_correction", "var_mean_correction", "var_dim"):
+           "prims_var"):
     _KERNEL_DEVIATIONS[_n] = lambda a, k: any(d == 0 for d in a[0]["shape"])
 
 
@@ -186,9 +186,9 @@ def families(ctx):
     t_imp = time.time()
     X.mods()
     from onnxscript import values as onnxscript_values
-    from onnxscript.function_libs.torch_lib.ops import core, nn
+    from onnxscript.function_libs.torch_lib.ops import core, nn, prims
     ctx.cover(import_s=round(time.time() - t_imp, 1))
-    mods_ = {"core": core, "nn": nn}
+    mods_ = {"core": core, "nn": nn, "prims": prims}
 
     fams = c08_fams.build()
     if os.environ.get("C08_ONLY"):                            # development aid: only the named families (never set by ./check)
@@ -239,6 +239,9 @@ def families(ctx):
                 call = call.replace("{FIXED}", "true" if _is_fixed(fam.name, sk, args) else "false")
                 obs, wres = {"RErr": "R2Err", "RNone": "R2None"}.get(obs, obs), {"RErr": "R2Err", "RNone": "R2None"}.get(wres, wres)
             if fam.chk == 3:
+                if getattr(fam, "flags", None) is not None:            # which repaired variant the observed skeleton shows
+                    fl = fam.flags(args, kwargs, [o for o, _ in sk], sk)
+                    call = call.replace("{F1}", "true" if fl[0] else "false").replace("{F2}", "true" if fl[1] else "false")
                 obs, wres = {"RErr": "R3Err", "RNone": "R3None"}.get(obs, obs), {"RErr": "R3Err", "RNone": "R3None"}.get(wres, wres)
             ctx.case((fam.name,) + tuple(fam.cls(args, kwargs)))
             fixed = _is_fixed(fam.name, sk, args)
